@@ -6,12 +6,14 @@
 // iteration may produce) and of the detector list x root sets of size 1..3.
 //
 // Oracle (no hand-written expected values):
-//   (1) multiset of packages / findings / statuses and the overall status are identical
-//       across all permutations; the sequence of *sort keys* of the emitted slices is identical;
-//   (2) packages are non-decreasing under CmpPackages, statuses by name, findings by
-//       (advisory reference, extra);
-//   (3) Scan(r1..rn) == multiset union of Scan(ri): packages and findings (extractor-produced);
-//       exactly one status entry per plugin.
+//
+//	(1) multiset of packages / findings / statuses and the overall status are identical
+//	    across all permutations; the sequence of *sort keys* of the emitted slices is identical;
+//	(2) packages are non-decreasing under CmpPackages, statuses by name, findings by
+//	    (advisory reference, extra);
+//	(3) Scan(r1..rn) == multiset union of Scan(ri): packages and findings (extractor-produced);
+//	    exactly one status entry per plugin.
+//
 // Don't care: relative order of entries that tie on every documented sort key.
 package main
 
@@ -189,14 +191,18 @@ func mkExtractors() []filesystem.Extractor {
 		}, nil
 	}}
 	// ex-c: ties on all four sort keys (fixed location), differs only in metadata
-	eC := &scankit.Ex{N: "ex-c", Req: func(api filesystem.FileAPI) bool { return strings.HasSuffix(api.Path(), "f1.pkg") || strings.HasSuffix(api.Path(), "f3.pkg") },
+	eC := &scankit.Ex{N: "ex-c", Req: func(api filesystem.FileAPI) bool {
+		return strings.HasSuffix(api.Path(), "f1.pkg") || strings.HasSuffix(api.Path(), "f3.pkg")
+	},
 		Out: func(e *scankit.Ex, in *filesystem.ScanInput, data []byte, _ error) (inventory.Inventory, error) {
 			return inventory.Inventory{Packages: []*extractor.Package{{Name: "T", Version: "1", Locations: []string{"fixed"}, Metadata: &meta{in.Path}}}}, nil
 		}}
 	// ex-d: packages with SEVERAL locations that arrive unsorted; the two packages tie on name,
 	// version and extractor, and their order under sorted locations ([aa/.. zz/..] < [mm/..]) is the
 	// opposite of their order under the arrival order ([zz/.. aa/..] > [mm/..])
-	eD := &scankit.Ex{N: "ex-d", Req: func(api filesystem.FileAPI) bool { return strings.HasSuffix(api.Path(), "f1.pkg") || strings.HasSuffix(api.Path(), "f3.pkg") },
+	eD := &scankit.Ex{N: "ex-d", Req: func(api filesystem.FileAPI) bool {
+		return strings.HasSuffix(api.Path(), "f1.pkg") || strings.HasSuffix(api.Path(), "f3.pkg")
+	},
 		Out: func(e *scankit.Ex, in *filesystem.ScanInput, data []byte, _ error) (inventory.Inventory, error) {
 			locs := []string{"mm/" + in.Path}
 			if strings.HasSuffix(in.Path, "f1.pkg") {
@@ -320,63 +326,123 @@ func failingFamily(r *ev.Run) {
 		}}}
 	}
 	for _, n := range ev.Pick(r, []int{1, 2, 3, 9, 10, 11, 12, 25}, []int{1, 2, 3, 4, 5, 9, 10, 11, 12, 13, 25, 64, 101, 257}) {
-		var files []*memfs.Node
-		for i := 0; i < n; i++ {
-			files = append(files, memfs.F(fmt.Sprintf("f%03d.pkg", i), "x"))
-		}
-		orders := map[string][]*memfs.Node{"identity": files}
-		rev := make([]*memfs.Node, n)
-		for i := range files {
-			rev[n-1-i] = files[i]
-		}
-		orders["reversed"] = rev
-		orders["rotated-by-1"] = append(append([]*memfs.Node{}, files[1:]...), files[0])
-		orders["rotated-by-half"] = append(append([]*memfs.Node{}, files[n/2:]...), files[:n/2]...)
-		var inter []*memfs.Node
-		for i := 0; i < n; i += 2 {
-			inter = append(inter, files[i])
-		}
-		for i := 1; i < n; i += 2 {
-			inter = append(inter, files[i])
-		}
-		orders["evens-then-odds"] = inter
 		for _, withOK := range []bool{false, true} {
-			mk := func(fs []*memfs.Node) *memfs.Node {
-				kids := append([]*memfs.Node{}, fs...)
-				if withOK {
-					kids = append(kids, memfs.F("ok.pkg", "x"))
+			var files []*memfs.Node
+			for i := 0; i < n; i++ {
+				if withOK && i == n/2 {
+					// the one file that yields results sits in the middle of the canonical listing, so
+					// that the listing orders below put it first, last and in between
+					files = append(files, memfs.F("m-ok.pkg", "x"))
 				}
-				return memfs.D("", memfs.D("a", kids...))
+				files = append(files, memfs.F(fmt.Sprintf("f%03d.pkg", i), "x"))
 			}
-			resRef, _ := scan([]*memfs.Node{mk(files)}, fail(), nil)
-			ref := statusSet(resRef)
-			for name, o := range orders {
-				res, _ := scan([]*memfs.Node{mk(o)}, fail(), nil)
+			n := len(files)
+			orders := map[string][]*memfs.Node{"identity": files}
+			rev := make([]*memfs.Node, n)
+			for i := range files {
+				rev[n-1-i] = files[i]
+			}
+			orders["reversed"] = rev
+			orders["rotated-by-1"] = append(append([]*memfs.Node{}, files[1:]...), files[0])
+			orders["rotated-by-half"] = append(append([]*memfs.Node{}, files[n/2:]...), files[:n/2]...)
+			var inter []*memfs.Node
+			for i := 0; i < n; i += 2 {
+				inter = append(inter, files[i])
+			}
+			for i := 1; i < n; i += 2 {
+				inter = append(inter, files[i])
+			}
+			orders["evens-then-odds"] = inter
+			{
+				mk := func(fs []*memfs.Node) *memfs.Node {
+					return memfs.D("", memfs.D("a", append([]*memfs.Node{}, fs...)...))
+				}
+				resRef, _ := scan([]*memfs.Node{mk(files)}, fail(), nil)
+				ref := statusSet(resRef)
+				for name, o := range orders {
+					res, _ := scan([]*memfs.Node{mk(o)}, fail(), nil)
+					r.Evals.Add(1)
+					r.Nontrivial.Add(1)
+					if got := statusSet(res); !eq(got, ref) {
+						r.Violation("status-depends-on-enumeration", fmt.Sprintf("%d failing files (ok file: %v) listed %s: statuses %q, canonical listing %q", n, withOK, name, got, ref), map[string]any{"failing_files": n, "listing": name, "with_ok_file": withOK})
+					}
+				}
+				if n >= 2 {
+					a, b := mk(files[:n/2]), mk(files[n/2:])
+					ra, _ := scan([]*memfs.Node{a}, fail(), nil)
+					rb, _ := scan([]*memfs.Node{b}, fail(), nil)
+					rab, _ := scan([]*memfs.Node{a, b}, fail(), nil)
+					r.Evals.Add(1)
+					lines := func(res *scalibr.ScanResult) []string {
+						var out []string
+						for _, s := range res.PluginStatus {
+							if s.Status.FailureReason != "" {
+								out = append(out, strings.Split(s.Status.FailureReason, "\n")...)
+							}
+						}
+						sort.Strings(out)
+						return out
+					}
+					want := sorted(append(lines(ra), lines(rb)...))
+					if got := lines(rab); !eq(got, want) {
+						r.Violation("multi-root-status-not-union", fmt.Sprintf("%d failing files split over two roots: failures reported %q, the single-root scans report %q", n, got, want), map[string]any{"failing_files": n, "with_ok_file": withOK})
+					}
+					// the status enum too: failed / partially succeeded is decided by whether ANY file of ANY
+					// root yielded results, not by the last one
+					enum := func(res *scalibr.ScanResult) string {
+						for _, s := range res.PluginStatus {
+							if s.Name == "ex-f" {
+								return fmt.Sprint(s.Status.Status)
+							}
+						}
+						return "absent"
+					}
+					rba, _ := scan([]*memfs.Node{b, a}, fail(), nil)
+					if enum(rab) != enum(rba) {
+						r.Violation("status-depends-on-enumeration", fmt.Sprintf("%d failing files (ok file: %v) split over two roots: status %s with roots in one order, %s in the other", n, withOK, enum(rab), enum(rba)), map[string]any{"failing_files": n, "with_ok_file": withOK})
+					}
+				}
+			}
+		}
+	}
+	gitignoreRoots(r)
+}
+
+// gitignoreRoots: options that keep per-directory state during the walk (gitignore patterns, skipped
+// directories) must not leak from one root into the next: a two-root scan is the union of the
+// single-root scans, in both root orders.
+func gitignoreRoots(r *ev.Run) {
+	ex := func() []filesystem.Extractor {
+		return []filesystem.Extractor{&scankit.Ex{N: "ex-g", Req: func(api filesystem.FileAPI) bool { return strings.HasSuffix(api.Path(), ".pkg") }}}
+	}
+	for _, body := range []string{"f2.pkg\n", "*.pkg\n", "/f1.pkg\n"} {
+		for _, skipAt := range []string{"", "skipme", "a/skipme"} {
+			r1 := memfs.D("", memfs.F(".gitignore", body), memfs.D("a", memfs.D("skipme", memfs.F("f3.pkg", "x")), memfs.F("f2.pkg", "x")), memfs.F("f1.pkg", "x"), memfs.F("f2.pkg", "x"), memfs.D("skipme", memfs.F("f4.pkg", "x")))
+			r2 := memfs.D("", memfs.D("a", memfs.F("f2.pkg", "x")), memfs.F("f1.pkg", "x"), memfs.F("f2.pkg", "x"))
+			one := func(roots []*memfs.Node) []string {
+				var sr []*scalibrfs.ScanRoot
+				for _, rt := range roots {
+					sr = append(sr, &scalibrfs.ScanRoot{FS: memfs.New(rt), Path: ""})
+				}
+				cfg := &scalibr.ScanConfig{FilesystemExtractors: ex(), Capabilities: &plugin.Capabilities{}, ScanRoots: sr, UseGitignore: true}
+				if skipAt != "" {
+					cfg.DirsToSkip = []string{skipAt}
+				}
+				res := scalibr.New().Scan(context.Background(), cfg)
+				var out []string
+				for _, p := range res.Inventory.Packages {
+					out = append(out, p.Name)
+				}
+				sort.Strings(out)
+				return out
+			}
+			want := sorted(append(one([]*memfs.Node{r1}), one([]*memfs.Node{r2})...))
+			for _, order := range [][]*memfs.Node{{r1, r2}, {r2, r1}} {
+				got := one(order)
 				r.Evals.Add(1)
 				r.Nontrivial.Add(1)
-				if got := statusSet(res); !eq(got, ref) {
-					r.Violation("status-depends-on-enumeration", fmt.Sprintf("%d failing files (ok file: %v) listed %s: statuses %q, canonical listing %q", n, withOK, name, got, ref), map[string]any{"failing_files": n, "listing": name, "with_ok_file": withOK})
-				}
-			}
-			if n >= 2 {
-				a, b := mk(files[:n/2]), mk(files[n/2:])
-				ra, _ := scan([]*memfs.Node{a}, fail(), nil)
-				rb, _ := scan([]*memfs.Node{b}, fail(), nil)
-				rab, _ := scan([]*memfs.Node{a, b}, fail(), nil)
-				r.Evals.Add(1)
-				lines := func(res *scalibr.ScanResult) []string {
-					var out []string
-					for _, s := range res.PluginStatus {
-						if s.Status.FailureReason != "" {
-							out = append(out, strings.Split(s.Status.FailureReason, "\n")...)
-						}
-					}
-					sort.Strings(out)
-					return out
-				}
-				want := sorted(append(lines(ra), lines(rb)...))
-				if got := lines(rab); !eq(got, want) {
-					r.Violation("multi-root-status-not-union", fmt.Sprintf("%d failing files split over two roots: failures reported %q, the single-root scans report %q", n, got, want), map[string]any{"failing_files": n, "with_ok_file": withOK})
+				if !eq(got, want) {
+					r.Violation("multi-root-packages-not-union", fmt.Sprintf("gitignore %q, skipped directory %q, roots in order %v: packages %q, union of the single-root scans %q", body, skipAt, order[0] == r1, got, want), map[string]any{"gitignore": body, "skip": skipAt})
 				}
 			}
 		}
@@ -577,5 +643,5 @@ func main() {
 	failingFamily(r)
 	r.Set("bound", map[string]any{"max_nodes_completed": completed})
 	r.Assume("Go map iteration order itself cannot be controlled; its consequence (the order of the extractor/detector lists) is enumerated instead")
-	r.Finish(fmt.Sprintf("every tree with <=%d nodes over {dir a, dir b, f1.pkg..f4.pkg with tying contents} x every combination of per-directory listing permutations x 10 extractor-list orders (all rotations of the canonical order and of its reverse) x 2 detector-list orders, all compared with the canonical-order scan of the same tree (key sequences, full multisets, statuses) + sortedness; plus every ordered selection of 2..3 roots among the top-level sub-trees and the whole tree vs the union of single-root scans, virtual roots and host-path roots with StoreAbsolutePath; plus the failing family: one extractor failing on N files (N up to 25, thorough 257) listed in 5 orders and split over two roots, statuses compared up to the order of failure-reason lines. non-trivial = (tree, listing vector) with >=2 packages and a directory with >=2 entries, or a multi-root selection with >=1 package", maxNodes), completed == maxNodes)
+	r.Finish(fmt.Sprintf("every tree with <=%d nodes over {dir a, dir b, f1.pkg..f4.pkg with tying contents} x every combination of per-directory listing permutations x 10 extractor-list orders (all rotations of the canonical order and of its reverse) x 2 detector-list orders, all compared with the canonical-order scan of the same tree (key sequences, full multisets, statuses) + sortedness; plus every ordered selection of 2..3 roots among the top-level sub-trees and the whole tree vs the union of single-root scans, virtual roots and host-path roots with StoreAbsolutePath; plus the failing family: one extractor failing on N files (N up to 25, thorough 257) listed in 5 orders and split over two roots, statuses compared up to the order of failure-reason lines (with one result-yielding file first, last and in between); two roots with .gitignore files and skipped directories, both root orders, vs the union of single-root scans. non-trivial = (tree, listing vector) with >=2 packages and a directory with >=2 entries, or a multi-root selection with >=1 package", maxNodes), completed == maxNodes)
 }
